@@ -449,6 +449,34 @@ func c04Parser(c *Ctx, r *Report) {
 		r.Undecided("C04-R5", "parseValue", "-", "parser not found")
 		return
 	}
+	// every member of an input object must have a place in the tree: the object loop stores the
+	// members in a keyed container (ordered map Set), which holds a name once - a repeated
+	// sibling name overwrites the earlier member in place unless the loop looks the name up
+	// first and treats the repetition in some other way
+	for _, l := range naturalLoops(pv) {
+		for b := range l.Body {
+			for _, in := range b.Instrs {
+				call, ok := in.(*ssa.Call)
+				if !ok || calleeKey(&call.Call) != omMethod("Set") || len(call.Call.Args) != 3 {
+					continue
+				}
+				looked := false
+				for b2 := range l.Body {
+					for _, in2 := range b2.Instrs {
+						if c2, ok := in2.(*ssa.Call); ok {
+							k2 := calleeKey(&c2.Call)
+							if (k2 == omMethod("Get") || k2 == omMethod("Has") || k2 == omMethod("GetElement")) && len(c2.Call.Args) >= 2 && c2.Call.Args[0] == call.Call.Args[0] {
+								looked = true
+							}
+						}
+					}
+				}
+				r.Check(looked, "C04-R5", "parser:repeated-member-names-kept", c.InstrPos(call),
+					"the object loop looks a member's name up before storing it: a repeated name is noticed",
+					"the parser stores every member with Set on an ordered map without looking the name up first: of two sibling members with the same name (legal JSON, and BSON documents may repeat a field) the later value overwrites the earlier one in the earlier one's position - one member is dropped and the order changes, also outside the redaction zones")
+			}
+		}
+	}
 	// array loop: a loop whose header calls More and whose body appends exactly the recursive result
 	okArr := false
 	detail := "array loop of the parser not recognised"
